@@ -19,12 +19,13 @@ def u64(x):
 class PB:
     """Program builder: lines + fresh names + a genprog.Gen used for filler statements."""
 
-    def __init__(self, rng, floats=False, filler_types=("i1", "i32", "i64", "index")):
+    def __init__(self, rng, floats=False, filler_types=("i1", "i32", "i64", "index"), ext=True):
         self.rng = rng
+        self.ext = ext
         self.lines: list[str] = []
         self.k = 0
         self.g = genprog.Gen(rng, allow_float=floats, allow_loops=True, effects=True, int_types=list(filler_types),
-                             safe_div=0.9, ext_calls=True, flt_types=["f32"])
+                             safe_div=0.9, ext_calls=ext, flt_types=["f32"])
 
     def fresh(self, p="t"):
         self.k += 1
@@ -59,7 +60,7 @@ class PB:
         r = self.rng.random()
         if r < 0.5 or t != "i32":
             self.emit(ind, f'"test.op"({v}) : ({t}) -> ()')
-        elif r < 0.8:
+        elif r < 0.8 or not self.ext:
             self.emit(ind, f'"test.op_with_memwrite"({v}) : ({t}) -> ()')
         else:
             o = self.fresh("e")
@@ -94,7 +95,7 @@ class PB:
         body = "\n".join(self.lines)
         head = f"func.func @main({sig}) -> ({rt}) {{\n" if rets else f"func.func @main({sig}) {{\n"
         tail = f"\n  func.return {rv} : {rt}\n}}\n" if rets else "\n  func.return\n}\n"
-        return "func.func private @ext_i32(i32) -> i32\n" + head + body + tail
+        return ("func.func private @ext_i32(i32) -> i32\n" if self.ext else "") + head + body + tail
 
     def choose_rets(self, env, prefer=(), n=None):
         rng = self.rng
@@ -114,7 +115,7 @@ def env_of(args):
 
 # ------------------------------------------------------------------------------------------ inputs
 BOUND_VALS = [0, 1, 2, 3, 4, 5, 6, 7, 8, 9, 0, 1, 2, 3, -1, -3]
-FACTOR_VALS = [-1, 0, 1, 2, 3, 4, -2, 5, 7, 1, 2, 3, 1 << 62, (1 << 63) - 1, -(1 << 63)]
+FACTOR_VALS = [1, 2, 3, 4, 5, 7, 1, 2, 3, 6, 2, 3, 4, 1, 2, 3, 5, 8, -1, 0, -2, 1 << 62, (1 << 63) - 1, -(1 << 63)]
 DIV_VALS = [0, 1, -1, 2, 3, -2, 5, 0, 1, 7]
 
 
@@ -135,11 +136,13 @@ def gen_inputs16(rng, args, n, meta=None):
             if role == "bound":
                 v = rng.choice(BOUND_VALS) if rng.random() < 0.93 else rng.choice([(1 << 63) - 1, -(1 << 63), rng.getrandbits(64)])
             elif role == "factor":
-                v = rng.choice(FACTOR_VALS) if rng.random() < 0.9 else rng.getrandbits(64)
+                r = rng.random()
+                v = rng.randint(1, 8) if r < 0.8 else rng.choice([0, -1, -2, -7]) if r < 0.88 else \
+                    rng.choice([1 << 62, (1 << 63) - 1, -(1 << 63), 1 << 32]) if r < 0.94 else rng.getrandbits(64)
             elif role == "div":
                 v = rng.choice(DIV_VALS) if rng.random() < 0.85 else rng.getrandbits(w)
             elif role == "sidx":
-                v = rng.randint(-9, 9)
+                v = rng.randint(0, 9) if rng.random() < 0.85 else rng.randint(-9, -1)
             elif role == "swidx":
                 cs = (meta or {}).get("switch_cases") or [0, 1, 2]
                 v = rng.choice(cs + [-1, 7, 4, rng.choice(cs)]) if rng.random() < 0.88 else rng.choice([c + (1 << 32) for c in cs] + [1 << 40])
@@ -392,3 +395,687 @@ def gen_unroll(rng):
         pb.filler(env, 1, rng.randint(0, 1))
     text = pb.module(args, pb.choose_rets(env[len(args):] or env))
     return {"text": text, "args": args, "meta": {"const_loops": state["const_loops"]}}
+
+
+# ------------------------------------------------------------------------------------------ lower-affine
+def _amap(dims, syms, results):
+    d = ", ".join(f"d{i}" for i in range(dims))
+    s = f"[{', '.join(f's{i}' for i in range(syms))}]" if syms else ""
+    return f"affine_map<({d}){s} -> ({', '.join(results)})>"
+
+
+def _aexpr(rng, terms, depth=0):
+    """random affine expression text over the given dim/sym names"""
+    r = rng.random()
+    if depth >= 2 or r < 0.3:
+        return rng.choice(terms) if rng.random() < 0.8 else str(rng.choice([0, 1, 2, 3, 5, -1, -4]))
+    a = _aexpr(rng, terms, depth + 1)
+    if r < 0.55:
+        return f"({a} + {_aexpr(rng, terms, depth + 1)})"
+    if r < 0.65:
+        return f"({a} * {rng.choice([2, 3, -1, 4])})"
+    op = rng.choice(["floordiv", "mod", "ceildiv", "mod"])
+    return f"({a} {op} {rng.choice([2, 3, 4, 5, 8, 1])})"
+
+
+def gen_lower_affine(rng):
+    pb = PB(rng, floats=rng.random() < 0.3)
+    two_d = rng.random() < 0.4
+    mt = "memref<4x4xi32>" if two_d else "memref<8xi32>"
+    args = [["%m", mt, "mem"], ["%p", "index", "sidx"], ["%q", "index", "sidx"], ["%x", "i32", "data"],
+            ["%n", "index", "bound"]]
+    env = [(a, t) for a, t, _ in args if not t.startswith("memref")]
+    st = {"sites": 0}
+
+    def apply_(env, ind, dims_pool):
+        nd = rng.randint(1, min(2, len(dims_pool)))
+        ns = rng.choice([0, 0, 1])
+        ds = [rng.choice(dims_pool) for _ in range(nd)]
+        ss = [rng.choice(dims_pool) for _ in range(ns)]
+        e = _aexpr(rng, [f"d{i}" for i in range(nd)] + [f"s{i}" for i in range(ns)])
+        v = pb.fresh("ap")
+        ops = ", ".join(ds + ss)
+        tys = ", ".join(["index"] * (nd + ns))
+        pb.emit(ind, f'{v} = "affine.apply"({ops}) <{{map = {_amap(nd, ns, [e])}}}> : ({tys}) -> index')
+        env.append((v, "index"))
+        st["sites"] += 1
+        return v
+
+    def idx_expr(d, size):
+        """in-bounds (for d >= 0) index expression over one dim"""
+        r = rng.random()
+        if r < 0.45:
+            return f"{d} mod {size}"
+        if r < 0.6:
+            return f"({d} + {rng.choice([1, 2, 3])}) mod {size}"
+        if r < 0.75:
+            return f"({d} floordiv 2) mod {size}"
+        if r < 0.85:
+            return f"({d} * {rng.choice([2, 3])}) mod {size}"
+        if r < 0.93:
+            return f"({d} ceildiv 3) mod {size}"
+        return d  # may be out of bounds -> source undefined for such inputs
+
+    def access(env, ind, ivs, store):
+        """affine.load / affine.store on %m with maps over induction variables (or constants)"""
+        sizes = [4, 4] if two_d else [8]
+        if not ivs or rng.random() < 0.15:
+            res = [str(rng.randrange(s)) for s in sizes]
+            ops, nd = [], 0
+        else:
+            nd = rng.randint(1, min(2, len(ivs)))
+            ops = [rng.choice(ivs) for _ in range(nd)]
+            res = [idx_expr(f"d{rng.randrange(nd)}", s) for s in sizes]
+        m = _amap(nd, 0, res)
+        tys = ", ".join([mt] + ["index"] * nd)
+        st["sites"] += 1
+        if store:
+            val = pb.pick(env, "i32", ind)
+            pb.emit(ind, f'"affine.store"({val}, {", ".join(["%m"] + ops)}) <{{map = {m}}}> : (i32, {tys}) -> ()')
+        else:
+            v = pb.fresh("ld")
+            pb.emit(ind, f'{v} = "affine.load"({", ".join(["%m"] + ops)}) <{{map = {m}}}> : ({tys}) -> i32')
+            env.append((v, "i32"))
+
+    def afor(env, ind, depth, ivs):
+        lbv = rng.choice([0, 0, 0, 1, 2, -1, -2, 3])
+        ubv = lbv + rng.choice([0, 1, 2, 3, 4, 5, 6, -2])
+        stepv = rng.choice([1, 1, 1, 2, 3])
+        nit = rng.choice([0, 1, 1, 2])
+        types = [rng.choice(["i32", "index"]) for _ in range(nit)]
+        inits = [pb.pick(env, t, ind) for t in types]
+        iv = pb.fresh("i")
+        accs = [pb.fresh("a") for _ in range(nit)]
+        outs = [pb.fresh("r") for _ in range(nit)]
+        symbolic = rng.random() < 0.06  # bounds with operands: the pass has no support (it raises) - kept rare
+        if symbolic:
+            lbm, ubm, bops, seg = "affine_map<() -> (0)>", "affine_map<()[s0] -> (s0)>", ["%n"], [0, 1, nit]
+        else:
+            lbm, ubm, bops, seg = f"affine_map<() -> ({lbv})>", f"affine_map<() -> ({ubv})>", [], [0, 0, nit]
+        head = f'{", ".join(outs)} = ' if nit else ""
+        pb.emit(ind, f'{head}"affine.for"({", ".join(bops + inits)}) <{{lowerBoundMap = {lbm}, upperBoundMap = {ubm}, '
+                     f'step = {stepv} : index, operandSegmentSizes = array<i32: {seg[0]}, {seg[1]}, {seg[2]}>}}> ({{')
+        pb.emit(ind, f"^bb0({', '.join([f'{iv}: index'] + [f'{a}: {t}' for a, t in zip(accs, types)])}):")
+        e2 = list(env) + [(iv, "index")] + list(zip(accs, types))
+        ivs2 = ivs + [iv]
+        news = []
+        for a, t in zip(accs, types):
+            other = iv if t == "index" else pb.pick(e2, t, ind + 1)
+            news.append(pb.binop(e2, ind + 1, t, a, other, ops=("addi", "addi", "xori", "muli")))
+        for _ in range(rng.randint(1, 4)):
+            r = rng.random()
+            if r < 0.3:
+                access(e2, ind + 1, ivs2, store=False)
+            elif r < 0.55:
+                access(e2, ind + 1, ivs2, store=True)
+            elif r < 0.7:
+                v = apply_(e2, ind + 1, ivs2 + ["%p", "%q"])
+                if rng.random() < 0.6:
+                    pb.effect(e2, ind + 1, (v, "index"))
+            elif r < 0.8 and depth < 1:
+                afor(e2, ind + 1, depth + 1, ivs2)
+            elif r < 0.9:
+                pb.filler(e2, ind + 1, 1, depth=2)
+            else:
+                pb.effect(e2, ind + 1)
+        ys = [nv if rng.random() < 0.8 else pb.pick(e2, t, ind + 1) for nv, t in zip(news, types)]
+        pb.emit(ind + 1, f'"affine.yield"({", ".join(ys)}) : ({", ".join(types)}) -> ()')
+        ft = f'({", ".join(["index"] * len(bops) + types)}) -> ({", ".join(types)})' if nit else \
+            f'({", ".join(["index"] * len(bops))}) -> ()'
+        pb.emit(ind, f"}}) : {ft}")
+        env.extend(zip(outs, types))
+        st["sites"] += 1
+
+    for _ in range(rng.randint(2, 5)):
+        r = rng.random()
+        if r < 0.35:
+            afor(env, 1, 0, [])
+        elif r < 0.6:
+            v = apply_(env, 1, ["%p", "%q", "%n"] + [v for v, t in env if t == "index"][:3])
+            if rng.random() < 0.5:
+                pb.effect(env, 1, (v, "index"))
+        elif r < 0.75:
+            access(env, 1, [], store=rng.random() < 0.5)
+        else:
+            pb.filler(env, 1, 1, depth=1)
+    if st["sites"] == 0:
+        afor(env, 1, 0, [])
+    text = pb.module(args, pb.choose_rets(env[4:] or env))
+    return {"text": text, "args": args, "meta": {}}
+
+
+# ------------------------------------------------------------------------------------------ range folding
+def gen_range_folding(rng):
+    pb = PB(rng, floats=False)
+    args = [["%n", "index", "bound"], ["%k", "index", "factor"], ["%j", "index", "factor"], ["%x", "i32", "data"],
+            ["%lo", "index", "bound"]]
+    env = env_of(args)
+
+    def factor(env, ind, outer_vals):
+        r = rng.random()
+        if r < 0.35:
+            return rng.choice(["%k", "%j"])
+        if r < 0.65:
+            return pb.const(ind, rng.choice([2, 3, 1, 4, 5, 7, 2, 3, 6, 2, 3, 4, 1, 2, 3, 5, 2, 3, 4, 8, 0, -1]))
+        if r < 0.8 and outer_vals:
+            return rng.choice(outer_vals)
+        c = pb.const(ind, rng.choice([1, 2, 3]))
+        v = pb.fresh("f")
+        pb.emit(ind, f"{v} = arith.{rng.choice(['addi', 'ori', 'ori'])} {rng.choice(['%k', '%j'])}, {c} : index")
+        return v
+
+    def floop(env, ind, depth, outer_vals):
+        # folding factors must be defined OUTSIDE the loop to be foldable
+        trigger = rng.random() < 0.85
+        nchain = rng.choice([1, 1, 2, 3]) if trigger else 1
+        kinds = [rng.choice(["addi", "muli", "muli"]) for _ in range(nchain)]
+        facs = [factor(env, ind, outer_vals) for _ in range(nchain)]
+        lb = pb.const(ind, rng.choice([0, 0, 1, 2, -1])) if rng.random() < 0.7 else "%lo"
+        r = rng.random()
+        ub = pb.const(ind, rng.choice([0, 1, 3, 4, 5, 6])) if r < 0.45 else "%n" if r < 0.85 else pb.masked(ind, "%n", 7)
+        st = pb.const(ind, rng.choice([1, 1, 2, 3])) if rng.random() < 0.8 else pb.pos_step(env, ind, "%lo")
+        nit = rng.choice([0, 1, 1])
+        init = pb.pick(env, "index", ind) if nit else None
+        iv, acc, out = pb.fresh("i"), pb.fresh("a"), pb.fresh("r")
+        if nit:
+            pb.emit(ind, f"{out} = scf.for {iv} = {lb} to {ub} step {st} iter_args({acc} = {init}) -> (index) {{")
+        else:
+            pb.emit(ind, f"scf.for {iv} = {lb} to {ub} step {st} {{")
+        e2 = list(env) + [(iv, "index")] + ([(acc, "index")] if nit else [])
+        cur = iv
+        mode = rng.random()
+        in_if = trigger and mode < 0.12
+        ind2 = ind + 1
+        if in_if:
+            c = pb.pick(env, "i1", ind + 1)
+            pb.emit(ind + 1, f"scf.if {c} {{")
+            ind2 = ind + 2
+        for kd, f in zip(kinds, facs):
+            v = pb.fresh("u")
+            a, b = (cur, f) if rng.random() < 0.6 else (f, cur)
+            pb.emit(ind2, f"{v} = arith.{kd} {a}, {b} : index")
+            cur = v
+        if not trigger:
+            r = rng.random()
+            if r < 0.4:  # second use of the induction variable
+                pb.emit(ind2, f'"test.op"({iv}) : (index) -> ()')
+            elif r < 0.7:  # factor defined inside the loop
+                c = pb.const(ind2, 3)
+                v = pb.fresh("u")
+                pb.emit(ind2, f"{v} = arith.muli {cur}, {c} : index")
+                cur = v
+            else:
+                v = pb.fresh("u")
+                pb.emit(ind2, f"{v} = arith.subi {cur}, %k : index")
+                cur = v
+        pb.emit(ind2, f'"test.op"({cur}) : (index) -> ()')
+        if in_if:
+            pb.emit(ind + 1, "}")
+            cur_outer = None
+        else:
+            cur_outer = cur
+            e2.append((cur, "index"))
+        if depth < 1 and rng.random() < 0.35 and cur_outer:
+            # inner loop: may start at the folded value (like the upstream test) or fold by outer-loop values
+            floop(e2, ind + 1, depth + 1, [cur_outer] if rng.random() < 0.5 else [])
+        if rng.random() < 0.4:
+            pb.filler(e2, ind + 1, 1, depth=2)
+        if nit:
+            nv = pb.fresh("t")
+            src = cur_outer or pb.pick(e2, "index", ind + 1)
+            pb.emit(ind + 1, f"{nv} = arith.{rng.choice(['addi', 'xori'])} {acc}, {src} : index")
+            pb.emit(ind + 1, f"scf.yield {nv} : index")
+        pb.emit(ind, "}")
+        if nit:
+            env.append((out, "index"))
+
+    pb.filler(env, 1, rng.randint(0, 2))
+    for _ in range(rng.randint(1, 2)):
+        floop(env, 1, 0, [])
+    pb.filler(env, 1, rng.randint(0, 1))
+    text = pb.module(args, pb.choose_rets(env[len(args):] or env))
+    return {"text": text, "args": args, "meta": {}}
+
+
+# ------------------------------------------------------------------------------------------ flatten
+def gen_flatten(rng):
+    pb = PB(rng, floats=rng.random() < 0.2)
+    args = [["%n", "index", "bound"], ["%lo", "index", "bound"], ["%x", "i32", "data"], ["%y", "index", "data"]]
+    env = env_of(args)
+    meta = {"nests": []}
+
+    def body_effects(e, ind, vals):
+        for _ in range(rng.randint(1, 2)):
+            r = rng.random()
+            if r < 0.6 and vals:
+                pb.effect(e, ind, rng.choice(vals))
+            elif r < 0.8:
+                pb.effect(e, ind)
+            else:
+                pb.filler(e, ind, 1, depth=2)
+
+    def nest(env, ind):
+        used = rng.random() < 0.45
+        sound = rng.random() < 0.6
+        iters = rng.random() < 0.3
+        triple = (not used) and rng.random() < 0.15
+        mism = rng.random() < 0.12   # shape the pass must not match
+        if used:
+            ost = rng.choice([2, 3, 4, 4, 6, 8])
+            ist = rng.choice([d for d in (1, 2, 3, 4) if ost % d == 0]) if rng.random() < 0.85 else rng.choice([3, 5])
+            ilb, iub = 0, ost
+            if rng.random() < 0.08:
+                ilb, iub = rng.choice([(1, ost), (0, ost + 1), (0, ost - 1)])
+            r = rng.random()
+            if r < 0.5:   # constant outer range, multiple of the step when `sound`
+                olbv = rng.choice([0, 0, 1, 3, -2])
+                trips = rng.choice([0, 1, 2, 3])
+                oubv = olbv + trips * ost + (0 if sound else rng.randint(1, ost - 1))
+                olb, oub = pb.const(ind, olbv), pb.const(ind, oubv)
+            else:
+                olb = pb.const(ind, rng.choice([0, 0, 1, 2])) if rng.random() < 0.6 else "%lo"
+                oub = "%n"
+        else:
+            ost = 1 if (sound or rng.random() < 0.5) else rng.choice([2, 3, 5])
+            ist = rng.choice([1, 1, 2, 3])
+            ilb = rng.choice([0, 0, 0, 1, 2])
+            iub = ilb + ist * rng.choice([0, 1, 2, 3, 4]) if sound else ilb + rng.choice([-2, 1, 2, 3, 4, 5, 7])
+            olb = pb.const(ind, 0) if rng.random() < 0.9 else rng.choice([pb.const(ind, 1), "%lo"])
+            oub = "%n" if rng.random() < 0.6 else pb.const(ind, rng.choice([0, 1, 2, 3, 4, 5, -2]))
+        c_ost, c_ilb, c_iub, c_ist = pb.const(ind, ost), pb.const(ind, ilb), pb.const(ind, iub), pb.const(ind, ist)
+        if rng.random() < 0.06:
+            c_ist = pb.pos_step(env, ind, "%lo")  # non-constant inner step: must not flatten
+        meta["nests"].append({"used": used, "ost": ost, "ilb": ilb, "iub": iub, "ist": ist})
+        oi, ii = pb.fresh("i"), pb.fresh("j")
+        if iters:
+            t = rng.choice(["index", "i32"])
+            init = pb.pick(env, t, ind)
+            oa, ia, orr, irr = pb.fresh("a"), pb.fresh("b"), pb.fresh("r"), pb.fresh("q")
+            pb.emit(ind, f"{orr} = scf.for {oi} = {olb} to {oub} step {c_ost} iter_args({oa} = {init}) -> ({t}) {{")
+            if mism and rng.random() < 0.5:
+                pb.emit(ind + 1, f'"test.op"({oa}) : ({t}) -> ()')
+            pb.emit(ind + 1, f"{irr} = scf.for {ii} = {c_ilb} to {c_iub} step {c_ist} iter_args({ia} = {oa}) -> ({t}) {{")
+            e2 = list(env) + [(ia, t)]
+            ind3 = ind + 2
+        else:
+            pb.emit(ind, f"scf.for {oi} = {olb} to {oub} step {c_ost} {{")
+            if mism and rng.random() < 0.5:
+                pb.emit(ind + 1, f'"test.op"(%x) : (i32) -> ()')
+            pb.emit(ind + 1, f"scf.for {ii} = {c_ilb} to {c_iub} step {c_ist} {{")
+            e2 = list(env)
+            ind3 = ind + 2
+        vals = []
+        if triple:
+            ki = pb.fresh("l")
+            tl, tu, ts = pb.const(ind3, 0), pb.const(ind3, rng.choice([2, 3, 4, 5])), pb.const(ind3, rng.choice([1, 2]))
+            pb.emit(ind3, f"scf.for {ki} = {tl} to {tu} step {ts} {{")
+            body_effects(list(e2), ind3 + 1, [("%x", "i32")])
+            pb.emit(ind3, "}")
+        elif used:
+            s = pb.fresh("s")
+            a, b = (oi, ii) if rng.random() < 0.6 else (ii, oi)
+            opn = "addi" if not (mism and rng.random() < 0.5) else rng.choice(["muli", "subi"])
+            pb.emit(ind3, f"{s} = arith.{opn} {a}, {b} : index")
+            vals = [(s, "index")]
+            e2.append((s, "index"))
+            if mism and rng.random() < 0.5:
+                pb.emit(ind3, f'"test.op"({rng.choice([oi, ii])}) : (index) -> ()')
+            body_effects(e2, ind3, vals)
+        else:
+            if mism and rng.random() < 0.7:
+                pb.emit(ind3, f'"test.op"({rng.choice([oi, ii])}) : (index) -> ()')
+            body_effects(e2, ind3, [("%x", "i32"), ("%y", "index")])
+        if iters:
+            nv = pb.fresh("t")
+            other = vals[0][0] if (vals and t == "index") else pb.pick(e2, t, ind3)
+            pb.emit(ind3, f"{nv} = arith.{rng.choice(['addi', 'xori', 'muli'])} {ia}, {other} : {t}")
+            pb.emit(ind3, f"scf.yield {nv} : {t}")
+            pb.emit(ind + 1, "}")
+            pb.emit(ind + 1, f"scf.yield {irr} : {t}")
+            pb.emit(ind, "}")
+            env.append((orr, t))
+        else:
+            pb.emit(ind + 1, "}")
+            if mism and rng.random() < 0.3:
+                pb.emit(ind + 1, f'"test.op"(%x) : (i32) -> ()')
+            pb.emit(ind, "}")
+
+    pb.filler(env, 1, rng.randint(0, 2))
+    for _ in range(rng.randint(1, 2)):
+        r = rng.random()
+        if r < 0.15:
+            c = pb.pick(env, "i1", 1)
+            pb.emit(1, f"scf.if {c} {{")
+            nest(list(env), 2)
+            pb.emit(1, "}")
+        elif r < 0.3:
+            c0, c2, c1 = pb.const(1, 0), pb.const(1, rng.choice([1, 2, 3])), pb.const(1, 1)
+            w = pb.fresh("w")
+            pb.emit(1, f"scf.for {w} = {c0} to {c2} step {c1} {{")
+            pb.emit(2, f'"test.op"({w}) : (index) -> ()')
+            nest(list(env), 2)
+            pb.emit(1, "}")
+        else:
+            nest(env, 1)
+    pb.filler(env, 1, rng.randint(0, 1))
+    text = pb.module(args, pb.choose_rets(env[len(args):] or env))
+    return {"text": text, "args": args, "meta": meta}
+
+
+# ------------------------------------------------------------------------------------------ licm / control-flow-hoist
+PURE_BIN = ("addi", "subi", "muli", "xori", "andi", "ori", "maxsi", "minui", "shli", "shrui")
+TRAP_BIN = ("divsi", "divui", "remsi", "remui", "floordivsi", "ceildivsi", "ceildivui")
+
+
+def _pure_stmt(pb, rng, env, ind, pool, trap_p=0.25, divs=()):
+    """One side-effect-free statement whose operands come from `pool` (typed values); returns (name, type).
+    With probability trap_p a trapping division whose divisor is an argument (role div), a constant, or a
+    value made non-zero."""
+    ints = [(v, t) for v, t in pool if t in ("i32", "index", "i64")]
+    a, t = rng.choice(ints)
+    same = [v for v, tt in ints if tt == t]
+    r = rng.random()
+    v = pb.fresh("p")
+    if r < trap_p:
+        opn = rng.choice(TRAP_BIN)
+        dv = [d for d, dt in divs if dt == t]
+        rr = rng.random()
+        if dv and rr < 0.6:
+            b = rng.choice(dv)
+        elif rr < 0.8:
+            b = pb.const(ind, rng.choice([1, 2, 3, -1, 0, 5]), t)
+        else:
+            b = rng.choice(same)
+        pb.emit(ind, f"{v} = arith.{opn} {a}, {b} : {t}")
+    elif r < 0.75:
+        b = rng.choice(same) if rng.random() < 0.7 else pb.const(ind, rng.choice([0, 1, 2, 3, 7, -1]), t)
+        pb.emit(ind, f"{v} = arith.{rng.choice(PURE_BIN)} {a}, {b} : {t}")
+    elif r < 0.85:
+        b = rng.choice(same)
+        pb.emit(ind, f"{v} = arith.cmpi {rng.choice(genprog.PRED)}, {a}, {b} : {t}")
+        t = "i1"
+    elif r < 0.93:
+        pb.emit(ind, f'{v} = "test.pureop"({a}) : ({t}) -> {t}')
+    else:
+        if t == "i32":
+            pb.emit(ind, f"{v} = arith.index_cast {a} : i32 to index")
+            t = "index"
+        elif t == "index":
+            pb.emit(ind, f"{v} = arith.index_cast {a} : index to i32")
+            t = "i32"
+        else:
+            pb.emit(ind, f"{v} = arith.trunci {a} : i64 to i32")
+            t = "i32"
+    return v, t
+
+
+def gen_licm(rng):
+    pb = PB(rng, floats=False)
+    args = [["%n", "index", "bound"], ["%a", "i32", "data"], ["%d", "i32", "div"], ["%e", "index", "div"],
+            ["%x", "i64", "data"], ["%g", "i64", "div"], ["%m", "memref<8xi32>", "mem"]]
+    env = [(a, t) for a, t, _ in args if not t.startswith("memref")]
+    divs = [("%d", "i32"), ("%e", "index"), ("%g", "i64")]
+
+    def loop(env, ind, depth):
+        r = rng.random()
+        lb = pb.const(ind, rng.choice([0, 0, 1, 2]))
+        ub = "%n" if r < 0.55 else pb.const(ind, rng.choice([0, 0, 1, 3, 4, -1])) if r < 0.9 else pb.masked(ind, "%n", 3)
+        st = pb.const(ind, rng.choice([1, 1, 2]))
+        nit = rng.choice([0, 1, 1, 2])
+        types = [rng.choice(["i32", "index", "i64"]) for _ in range(nit)]
+        inits = [pb.pick(env, t, ind) for t in types]
+        iv = pb.fresh("i")
+        accs = [pb.fresh("a") for _ in range(nit)]
+        outs = [pb.fresh("r") for _ in range(nit)]
+        if nit:
+            ia = ", ".join(f"{a} = {i}" for a, i in zip(accs, inits))
+            pb.emit(ind, f"{', '.join(outs)} = scf.for {iv} = {lb} to {ub} step {st} iter_args({ia}) -> ({', '.join(types)}) {{")
+        else:
+            pb.emit(ind, f"scf.for {iv} = {lb} to {ub} step {st} {{")
+        outer = [(v, t) for v, t in env]
+        inv = list(outer)              # values invariant w.r.t. this loop
+        var = [(iv, "index")] + list(zip(accs, types))
+        e2 = list(env) + var
+        for _ in range(rng.randint(2, 6)):
+            r = rng.random()
+            if r < 0.45:      # invariant op (possibly chained on a previous invariant)
+                v, t = _pure_stmt(pb, rng, e2, ind + 1, inv, trap_p=0.3, divs=divs)
+                inv.append((v, t)); e2.append((v, t))
+            elif r < 0.6:     # variant op
+                v, t = _pure_stmt(pb, rng, e2, ind + 1, var + inv[-2:], trap_p=0.1, divs=divs)
+                e2.append((v, t)); var.append((v, t))
+            elif r < 0.7:     # invariant guarded region
+                c = [v for v, t in inv if t == "i1"]
+                if not c:
+                    z = pb.const(ind + 1, 0, "i32")
+                    cv = pb.fresh("p")
+                    pb.emit(ind + 1, f"{cv} = arith.cmpi ne, %d, {z} : i32")
+                    inv.append((cv, "i1")); e2.append((cv, "i1"))
+                    c = [cv]
+                o = pb.fresh("g")
+                pb.emit(ind + 1, f"{o} = scf.if {rng.choice(c)} -> (i32) {{")
+                e3 = list(e2)
+                v, t = _pure_stmt(pb, rng, e3, ind + 2, [(x, tt) for x, tt in inv if tt == "i32"] or [("%a", "i32")],
+                                  trap_p=0.6, divs=divs)
+                if rng.random() < 0.2:
+                    pb.effect(e3, ind + 2)
+                y = v if t == "i32" else "%a"
+                pb.emit(ind + 2, f"scf.yield {y} : i32")
+                pb.emit(ind + 1, "} else {")
+                pb.emit(ind + 2, "scf.yield %a : i32")
+                pb.emit(ind + 1, "}")
+                inv.append((o, "i32")); e2.append((o, "i32"))
+            elif r < 0.78:    # memory traffic: load (invariant address!) and store
+                k = pb.const(ind + 1, rng.randrange(8))
+                if rng.random() < 0.5:
+                    v = pb.fresh("l")
+                    pb.emit(ind + 1, f"{v} = memref.load %m[{k}] : memref<8xi32>")
+                    e2.append((v, "i32")); var.append((v, "i32"))
+                else:
+                    c7 = pb.const(ind + 1, 7)
+                    ix = pb.fresh("x")
+                    pb.emit(ind + 1, f"{ix} = arith.andi {iv}, {c7} : index")
+                    val = pb.pick(e2, "i32", ind + 1)
+                    pb.emit(ind + 1, f"memref.store {val}, %m[{ix if rng.random() < 0.6 else k}] : memref<8xi32>")
+            elif r < 0.9:
+                pb.effect(e2, ind + 1, rng.choice([x for x in e2 if x[1] in W]))
+            elif depth < 1:
+                loop(e2, ind + 1, depth + 1)
+            else:
+                pb.filler(e2, ind + 1, 1, depth=2)
+        if nit:
+            ys = []
+            for a, t in zip(accs, types):
+                c = [v for v, tt in e2 if tt == t and v != a]
+                nv = pb.fresh("t")
+                pb.emit(ind + 1, f"{nv} = arith.{rng.choice(['addi', 'xori'])} {a}, {rng.choice(c) if c else a} : {t}")
+                ys.append(nv)
+            pb.emit(ind + 1, f"scf.yield {', '.join(ys)} : {', '.join(types)}")
+        else:
+            pb.effect(e2, ind + 1, rng.choice([x for x in e2 if x[1] in W]))
+        pb.emit(ind, "}")
+        env.extend(zip(outs, types))
+
+    pb.filler(env, 1, rng.randint(0, 2))
+    for _ in range(rng.randint(1, 2)):
+        if rng.random() < 0.15:
+            z = pb.const(1, 0)
+            c = pb.fresh("p")
+            pb.emit(1, f"{c} = arith.cmpi sgt, %n, {z} : index")
+            pb.emit(1, f"scf.if {c} {{")
+            loop(list(env), 2, 0)
+            pb.emit(1, "}")
+        else:
+            loop(env, 1, 0)
+    text = pb.module(args, pb.choose_rets(env[6:] or env))
+    return {"text": text, "args": args, "meta": {}}
+
+
+def gen_hoist(rng):
+    pb = PB(rng, floats=False)
+    args = [["%n", "index", "sidx"], ["%a", "i32", "data"], ["%b", "i32", "data"], ["%d", "i32", "div"],
+            ["%e", "index", "div"], ["%c", "i1", "data"]]
+    env = env_of(args)
+    divs = [("%d", "i32"), ("%e", "index")]
+
+    def cond(env, ind):
+        r = rng.random()
+        if r < 0.3:
+            return "%c"
+        v = pb.fresh("p")
+        if r < 0.6:
+            z = pb.const(ind, 0, "i32")
+            pb.emit(ind, f"{v} = arith.cmpi {rng.choice(['ne', 'sgt', 'eq'])}, %d, {z} : i32")
+        elif r < 0.8:
+            z = pb.const(ind, 0)
+            pb.emit(ind, f"{v} = arith.cmpi {rng.choice(['ne', 'sgt'])}, %e, {z} : index")
+        else:
+            pb.emit(ind, f"{v} = arith.cmpi {rng.choice(genprog.PRED)}, %a, %b : i32")
+        return v
+
+    def branch(env, ind, depth, t, pure, shared):
+        e2 = list(env)
+        local = list(env)
+        for s in shared:   # identical expression in both branches (CSE after hoisting)
+            v = pb.fresh("p")
+            pb.emit(ind, f"{v} = arith.{s[0]} {s[1]}, {s[2]} : {s[3]}")
+            e2.append((v, s[3])); local.append((v, s[3]))
+        for _ in range(rng.randint(0, 3)):
+            r = rng.random()
+            if r < 0.75 or depth >= 2:
+                v, tt = _pure_stmt(pb, rng, e2, ind, local, trap_p=0.3, divs=divs)
+                e2.append((v, tt)); local.append((v, tt))
+            elif r < 0.9:
+                if_(e2, ind, depth + 1, pure)
+                local = list(e2)
+            elif not pure:
+                pb.effect(e2, ind)
+        if not pure and rng.random() < 0.7:
+            pb.effect(e2, ind)
+        if t:
+            c = [v for v, tt in e2 if tt == t]
+            return rng.choice(c[-3:]) if c else pb.pick(e2, t, ind)
+        return None
+
+    def if_(env, ind, depth, pure_parent=True):
+        pure = rng.random() < 0.8 if pure_parent else False
+        t = rng.choice(["i32", "i32", "index", None])
+        has_else = t is not None or rng.random() < 0.5
+        shared = []
+        if has_else and rng.random() < 0.3:
+            shared = [(rng.choice(["addi", "muli", "xori"]), "%a", "%b", "i32")]
+        affine = rng.random() < 0.2
+        out = pb.fresh("h")
+        if affine:
+            cs = rng.choice(["(d0) : (d0 - 2 >= 0)", "(d0) : (d0 == 0)", "(d0)[s0] : (d0 + s0 - 3 >= 0, d0 >= 0)",
+                             "(d0) : (-d0 + 4 >= 0)", "(d0)[s0] : (d0 - s0 == 0)"])
+            nops = 2 if "s0" in cs else 1
+            ops = ", ".join(["%n", "%e"][:nops])
+            head = f"{out} = " if t else ""
+            pb.emit(ind, f'{head}"affine.if"({ops}) <{{condition = affine_set<{cs}>}}> ({{')
+            y = branch(env, ind + 1, depth, t, pure, shared)
+            pb.emit(ind + 1, f'"affine.yield"({y}) : ({t}) -> ()' if t else '"affine.yield"() : () -> ()')
+            pb.emit(ind, "}, {")
+            if has_else:
+                y = branch(env, ind + 1, depth, t, pure, shared)
+                pb.emit(ind + 1, f'"affine.yield"({y}) : ({t}) -> ()' if t else '"affine.yield"() : () -> ()')
+            pb.emit(ind, f'}}) : ({", ".join(["index"] * nops)}) -> {t if t else "()"}')
+        else:
+            c = cond(env, ind)
+            pb.emit(ind, f"{out} = scf.if {c} -> ({t}) {{" if t else f"scf.if {c} {{")
+            y = branch(env, ind + 1, depth, t, pure, shared)
+            if t:
+                pb.emit(ind + 1, f"scf.yield {y} : {t}")
+            if has_else:
+                pb.emit(ind, "} else {")
+                y = branch(env, ind + 1, depth, t, pure, shared)
+                if t:
+                    pb.emit(ind + 1, f"scf.yield {y} : {t}")
+            pb.emit(ind, "}")
+        if t:
+            env.append((out, t))
+
+    pb.filler(env, 1, rng.randint(0, 2))
+    for _ in range(rng.randint(1, 3)):
+        if rng.random() < 0.15:
+            c0, c2, c1 = pb.const(1, 0), pb.const(1, rng.choice([0, 1, 3])), pb.const(1, 1)
+            w = pb.fresh("w")
+            pb.emit(1, f"scf.for {w} = {c0} to {c2} step {c1} {{")
+            e2 = list(env) + [(w, "index")]
+            if_(e2, 2, 1)
+            pb.effect(e2, 2)
+            pb.emit(1, "}")
+        else:
+            if_(env, 1, 0)
+    pb.filler(env, 1, rng.randint(0, 1))
+    text = pb.module(args, pb.choose_rets(env[len(args):] or env))
+    return {"text": text, "args": args, "meta": {}}
+
+
+# ------------------------------------------------------------------------------------------ frontend-desymrefy
+def gen_desymrefy(rng):
+    pb = PB(rng, floats=False, ext=False)  # a declaration has an empty region, which the pass refuses
+    args = [["%n", "index", "bound"], ["%x", "i32", "data"], ["%y", "i32", "data"], ["%c", "i1", "data"]]
+    env = env_of(args)
+    st = {"sym": 0, "nested": False}
+
+    def block(env, ind, depth, outer_syms):
+        """straight-line symref code; `outer_syms` = symbols declared in enclosing blocks (using them here is the
+        nested-use shape the pass does not promote)."""
+        syms = []
+        for _ in range(rng.randint(1, 3) if depth == 0 else rng.randint(0, 2)):
+            st["sym"] += 1
+            name, t = f"s{st['sym']}", rng.choice(["i32", "i32", "index"])
+            pb.emit(ind, f'symref.declare "{name}"')
+            pb.emit(ind, f"symref.update @{name} = {pb.pick(env, t, ind)} : {t}")
+            syms.append((name, t))
+        for _ in range(rng.randint(2, 7)):
+            r = rng.random()
+            pool = syms if (not outer_syms or rng.random() < 0.5) else outer_syms
+            if r < 0.3 and pool:
+                name, t = rng.choice(pool)
+                if pool is outer_syms:
+                    st["nested"] = True
+                v = pb.fresh("f")
+                pb.emit(ind, f"{v} = symref.fetch @{name} : {t}")
+                env.append((v, t))
+            elif r < 0.55 and pool:
+                name, t = rng.choice(pool)
+                if pool is outer_syms:
+                    st["nested"] = True
+                pb.emit(ind, f"symref.update @{name} = {pb.pick(env, t, ind)} : {t}")
+            elif r < 0.7:
+                pb.filler(env, ind, 1, depth=2)
+            elif r < 0.8:
+                pb.effect(env, ind)
+            elif depth < 2:
+                nested_ok = rng.random() < 0.15
+                osy = (outer_syms + syms) if nested_ok else []
+                if rng.random() < 0.5:
+                    c0, c2, c1 = pb.const(ind, 0), "%n" if rng.random() < 0.5 else pb.const(ind, rng.choice([0, 2, 3])), pb.const(ind, 1)
+                    w = pb.fresh("w")
+                    pb.emit(ind, f"scf.for {w} = {c0} to {c2} step {c1} {{")
+                    e2 = list(env) + [(w, "index")]
+                    block(e2, ind + 1, depth + 1, osy)
+                    pb.effect(e2, ind + 1)
+                    pb.emit(ind, "}")
+                else:
+                    pb.emit(ind, f"scf.if {pb.pick(env, 'i1', ind)} {{")
+                    e2 = list(env)
+                    block(e2, ind + 1, depth + 1, osy)
+                    pb.effect(e2, ind + 1)
+                    pb.emit(ind, "} else {")   # an absent else region (0 blocks) is refused by the pass
+                    pb.effect(list(env), ind + 1)
+                    pb.emit(ind, "}")
+        # make the final state of the local symbols observable
+        for name, t in syms:
+            if rng.random() < 0.7:
+                v = pb.fresh("f")
+                pb.emit(ind, f"{v} = symref.fetch @{name} : {t}")
+                env.append((v, t))
+                if rng.random() < 0.5:
+                    pb.emit(ind, f'"test.op"({v}) : ({t}) -> ()')
+
+    block(env, 1, 0, [])
+    text = pb.module(args, pb.choose_rets(env[len(args):] or env))
+    return {"text": text, "args": args, "meta": {"nested_use": st["nested"]}}
